@@ -113,6 +113,9 @@ def run(ctx):
             _f65(ctx, mdl, large, sweep)
     _f65_noautoscale(ctx, mdl)
 
+    # ---------------------------------------------------------------- R04.7 concrete quarter / three-quarter circles
+    _axis_circles(ctx, mdl)
+
     # ---------------------------------------------------------------- R04.6 approximations
     for meth, npts in (('as_cubic_curves', 4), ('as_quad_curves', 3)):
         f = mdl.func('path.Arc.' + meth)
@@ -146,6 +149,76 @@ def run(ctx):
 
 
 # ------------------------------------------------------------------------------------------------
+def _axis_circles(ctx, mdl):
+    """circular arcs between axis points of a circle (every quantity of F.6.5 is then exact: angles are multiples of 90 degrees),
+    built by the REAL constructor for all flag combinations, x-axis rotations 0/90/180/-90 (irrelevant for a circle, but part
+    of the formulas) and two centres: centre, theta, delta are the spec's, point(0)/point(1) are the end points and a
+    three-quarter arc passes the two axis points in between, in order."""
+    ctx.rule('R04.7', 'concrete quarter and three-quarter circles through the real constructor (4 start angles x 2 sweeps x 2 sizes x 4 rotations x 2 '
+                      'centres): centre, theta, delta exact; point(0), point(1) and the intermediate axis points', 4)
+    fi = mdl.func(Q)
+    unit = [Rat.const(1), Rat.const(1j), Rat.const(-1), Rat.const(-1j)]
+    for large in (False, True):
+        for sweep in (False, True):
+            bad = []
+            und = None
+            n = 0
+            for c, r in ((Rat.const(0), 1), (Rat.const(2 + 3j), 2)):
+                for k0 in range(4):
+                    sgn = 1 if sweep else -1
+                    steps = 3 if large else 1
+                    k1 = (k0 + sgn * steps) % 4
+                    S_, E_ = c + r * unit[k0], c + r * unit[k1]
+                    for rot in (0, 90, 180, -90):
+                        n += 1
+
+                        def th(it, S_=S_, E_=E_, r=r, rot=rot):
+                            a = it.construct('path.Arc', S_, Rat.const(complex(r, r)), Rat.const(rot), large, sweep, E_)
+                            pts = [it.call_method(a, 'point', Rat.const(Fr(j, steps))) for j in range(steps + 1)]
+                            return a.attrs['center'], a.attrs['theta'], a.attrs['delta'], pts
+                        try:
+                            paths = explore(mdl, th, {})
+                        except Undecidable as e:
+                            und = und or str(e)
+                            continue
+                        for pth in paths:
+                            label = 'Arc(%s, %d+%dj, %d, %s, %s, %s)' % (short(S_, 12), r, r, rot, large, sweep, short(E_, 12))
+                            if pth.raised is not None:
+                                bad.append('%s raises %s' % (label, pth.raised.exc_name))
+                                continue
+                            cen, th_, de_, pts = pth.value
+                            want_pts = [c + r * unit[(k0 + sgn * j) % 4] for j in range(steps + 1)]
+                            # theta is measured in the frame turned by the x-axis rotation
+                            want_theta = (90 * k0 - rot) % 360
+                            probs = []
+                            unknown = []
+
+                            def cmp_(what, got, want):
+                                ok, d = decide_equal(got, want)
+                                if ok is False:
+                                    probs.append('%s = %s, expected %s' % (what, short(got, 24), short(want, 12)))
+                                elif ok is None:
+                                    unknown.append('%s = %s is not reduced to a number' % (what, short(got, 24)))
+                            cmp_('center', cen, c)
+                            tf_ = to_rat(th_).as_fraction()
+                            if tf_ is None:
+                                unknown.append('theta = %s is not reduced to a number' % short(th_, 24))
+                            elif (tf_ - want_theta) % 360 != 0:
+                                probs.append('theta %s (expected %d mod 360)' % (short(th_, 20), want_theta))
+                            cmp_('delta', de_, Rat.const(sgn * 90 * steps))
+                            for j, (g, w) in enumerate(zip(pts, want_pts)):
+                                cmp_('point(%d/%d)' % (j, steps), g, w)
+                            if probs:
+                                bad.append('%s: %s' % (label, '; '.join(probs)))
+                            elif unknown and not und:
+                                und = '%s: %s' % (label, '; '.join(unknown[:2]))
+            label = 'large_arc=%s sweep=%s: %d concrete circular arcs' % (large, sweep, n)
+            if und and not bad:
+                ctx.undecided('R04.7', fi.qualname, label, und, where=where(fi))
+            else:
+                ctx.record('R04.7', fi.qualname, label, not bad, detail='; '.join(bad[:2]), where=where(fi), sample={'arcs': n})
+
+
 def _chain(large, sweep):
     """the oracle's F.6.5 quantities, each with the atom that abstracts it"""
     S, E = Rat.csym('S'), Rat.csym('E')
